@@ -5,6 +5,7 @@ usage: python -m xv.worker <prop> <harness> <mode> <part-json> <tier> <budget-se
 
 import ast
 import json
+import os
 import logging
 import sys
 import time
@@ -91,6 +92,23 @@ def main(argv):
         "budget": budget,
     }
     msgs = []
+
+    def watchdog():
+        # CrossHair honours per_condition_timeout only between solver calls / paths; one long z3 query or a long
+        # concrete stretch can overrun it.  Past budget + grace the analysis is cut here and reported exactly as
+        # CrossHair reports its own timeout: no counterexample among the paths explored, not exhaustive.
+        o = dict(out)
+        o.update(verdict="NO_CEX", message="cut by the worker watchdog after %.0fs" % (time.time() - t0), call=None,
+                 paths=ctx.PATHS, queries=stats["queries"], solver_time=round(stats["solver_time"], 3),
+                 wall=round(time.time() - t0, 2), states=["WATCHDOG"], last_exc=None, last_tb="")
+        sys.stdout.write("\nXVRESULT " + json.dumps(o) + "\n")
+        sys.stdout.flush()
+        os._exit(0)
+
+    import threading
+    wd = threading.Timer(budget * 1.25 + 45, watchdog)
+    wd.daemon = True
+    wd.start()
     try:
         opts = AnalysisOptionSet(
             per_condition_timeout=budget,
@@ -102,6 +120,7 @@ def main(argv):
             msgs.append((m.state.name, m.message))
     except BaseException as e:  # noqa
         msgs.append(("WORKER_ERR", f"{type(e).__name__}: {e}"))
+    wd.cancel()
     states = [s for s, _ in msgs]
     verdict, message, call = "ERROR", "", None
     if "POST_FAIL" in states:
